@@ -36,6 +36,64 @@ end
 /-- `Stack.Unmarshal()` on an initialised stack without a custom unmarshaler: label, then the entries -/
 def Stk.unmarshal (s : Stk) : List Val := strV s.cfg.kindText :: unmarshalElems s.xs
 
+/-! ## Unmarshal with Unmarshaler closures on nested nodes
+
+`stack.unmarshalDefault` walks a nested Stack (any form) with the *private* `unmarshalDefault` again, so the
+nested Stack's own Unmarshaler is not consulted; a nested Condition (any form) goes through the *public*
+`Condition.Unmarshal`, which honours its Unmarshaler; `condition.unmarshalDefault` expands a Stack expression
+(any form) through the *public* `Stack.Unmarshal`, which honours the Unmarshaler of that Stack. The loop of
+`stack.unmarshalDefault` runs while `err == nil`; an entry is appended only if its own call returned no error, so an
+error ends the list before the entry that raised it. `condition.unmarshalDefault` returns its four-entry row together
+with the error of the expression's call. -/
+
+mutual
+/-- what one element contributes to the parent's loop: the entry (`subSlices` boxed, or the value itself) and the error -/
+def unmarshalElemK (K : Closures) : Val → Val × Option Nat
+  | .stk _ c xs =>
+    let r := unmarshalElemsK K xs                  -- `sub.unmarshalDefault()`: `c.umf` is not looked at
+    (.anys (strV c.kindText :: r.1), r.2)
+  | .cnd _ c kw op ex =>
+    match c.umf with                               -- `cub.Unmarshal()`
+    | some p => (.anys (K.unmarshal p).1, (K.unmarshal p).2)
+    | none =>
+      let r := unmarshalExprK K ex
+      (.anys [strV conditionLabel, strV kw, .opv op, r.1], r.2)
+  | v => (v, none)
+
+/-- the loop of `stack.unmarshalDefault` after the label: the entries collected and the error that stopped it -/
+def unmarshalElemsK (K : Closures) : List Val → List Val × Option Nat
+  | [] => ([], none)
+  | x :: rest =>
+    let r := unmarshalElemK K x
+    match r.2 with
+    | some e => ([], some e)                       -- not appended; `err != nil` ends the loop
+    | none =>
+      let rs := unmarshalElemsK K rest
+      (r.1 :: rs.1, rs.2)
+
+/-- `nexpr, err` of `condition.unmarshalDefault`: a Stack (any form) through the public `Unmarshal()` -/
+def unmarshalExprK (K : Closures) : Val → Val × Option Nat
+  | .stk _ c xs =>
+    match c.umf with
+    | some p => (.anys (K.unmarshal p).1, (K.unmarshal p).2)
+    | none =>
+      let r := unmarshalElemsK K xs
+      (.anys (strV c.kindText :: r.1), r.2)
+  | v => (v, none)
+end
+
+mutual
+/-- no node of the tree carries an Unmarshaler -/
+def noUmf : Val → Bool
+  | .stk _ c xs => c.umf.isNone && noUmfList xs
+  | .cnd _ c _ _ ex => c.umf.isNone && noUmf ex
+  | .anys xs => noUmfList xs
+  | _ => true
+def noUmfList : List Val → Bool
+  | [] => true
+  | x :: rest => noUmf x && noUmfList rest
+end
+
 /-! ## Marshal -/
 
 /-- Go `strings.ToUpper(lab) == word` for the six ASCII label words (ı and ſ upper-case to I and S) -/
